@@ -208,7 +208,7 @@ func MkSlice(arr, n Term) Term {
 	return app(SliceSort(v), "mkslice", arr, n)
 }
 
-func NilIface() Term         { return Term{"(mkiface 0 0)", SIface} }
+func NilIface() Term { return Term{"(mkiface 0 0)", SIface} }
 func MkIface(tag int, r Term) Term {
 	return Term{fmt.Sprintf("(mkiface %d %s)", tag, r.S), SIface}
 }
